@@ -212,7 +212,8 @@ composite forgotten (every adopted child calls `add_child`) -/
 
 theorem afterAdopt_fields (c : Core) (cs : List Node) :
     (c.afterAdopt cs).kind = c.kind ∧ (c.afterAdopt cs).ins = c.ins ∧ (c.afterAdopt cs).outs = c.outs ∧
-    (c.afterAdopt cs).inLinks = c.inLinks ∧ (c.afterAdopt cs).outLinks = c.outLinks := by
+    (c.afterAdopt cs).inLinks = c.inLinks ∧ (c.afterAdopt cs).outLinks = c.outLinks ∧
+    (c.afterAdopt cs).refused = c.refused := by
   unfold Core.afterAdopt; split <;> simp
 
 mutual
@@ -494,6 +495,7 @@ theorem setstate_ok (cfg : Cfg) (c : Core) (cs : List Node)
     (hds : checkStrs (inDom (cs.map Node.adopt)) (outDom (cs.map Node.adopt)) ds = true)
     (hss : checkStrs (sInDom (cs.map Node.adopt)) (sOutDom (cs.map Node.adopt)) ss = true)
     (hfo : checkStrs (sOutDom (cs.map Node.adopt)) (sInDom (cs.map Node.adopt)) fo = true)
+    (hrf : cfg.revalidate = true → c.refused = [])
     (hl : c.kind.hasLinks = true → LinksOk c (cs.map Node.adopt))
     (hq : c.kind.hasLinks = true → cfg.anyPush = true →
       (∀ p ∈ c.inLinks, ∀ v, valOf c.ins p.1 = some v → QuietL (cs.map Node.adopt) p.2.1 p.2.2 v) ∧
@@ -507,11 +509,16 @@ theorem setstate_ok (cfg : Cfg) (c : Core) (cs : List Node)
       (if cfg.keepCache then c else c.afterAdopt cs).ins = c.ins ∧
       (if cfg.keepCache then c else c.afterAdopt cs).outs = c.outs ∧
       (if cfg.keepCache then c else c.afterAdopt cs).inLinks = c.inLinks ∧
-      (if cfg.keepCache then c else c.afterAdopt cs).outLinks = c.outLinks := by
+      (if cfg.keepCache then c else c.afterAdopt cs).outLinks = c.outLinks ∧
+      (if cfg.keepCache then c else c.afterAdopt cs).refused = c.refused := by
     cases cfg.keepCache
     · simpa using afterAdopt_fields c cs
     · simp
-  obtain ⟨f1, f2, f3, f4, f5⟩ := hf
+  obtain ⟨f1, f2, f3, f4, f5, f6⟩ := hf
+  have b0 : (cfg.revalidate && ds.any fun p => decide (p ∈ c.refused)) = false := by
+    cases hv : cfg.revalidate
+    · simp
+    · simp [hrf hv]
   have l1 : ∀ a ∈ inDom (cs.map Node.adopt), a.1 ∈ childLabels (cs.map Node.adopt) :=
     fun a ha => dom_label _ (fun c => labelsOf c.ins) a ha
   have l2 : ∀ a ∈ outDom (cs.map Node.adopt), a.1 ∈ childLabels (cs.map Node.adopt) :=
@@ -530,7 +537,7 @@ theorem setstate_ok (cfg : Cfg) (c : Core) (cs : List Node)
     · exact firstBad_none _ _ _ fo l4 l3 hfo
     · rfl
   unfold setstate
-  simp only [hs, b1, b2, b3, Bool.not_true, Bool.false_eq_true, if_false]
+  simp only [hs, b1, b2, b3, f6, b0, Bool.not_true, Bool.false_eq_true, if_false]
   generalize hc' : (if cfg.keepCache then c else c.afterAdopt cs) = c' at f1 f2 f3 f4 f5 ⊢
   by_cases hk : c.kind.hasLinks = true
   · have L := hl hk
@@ -547,17 +554,50 @@ theorem setstate_ok (cfg : Cfg) (c : Core) (cs : List Node)
   · simp [f1, hk]
 
 mutual
+/-- the hypothesis under which the PINNED restore is faithful: where the reconnection order is not
+repaired, no data input holds more than one connection and no signal output fires more than one;
+where the cache is not kept, no composite (with children) holds one; where connections are validated
+again, none would be refused today -/
+def AtMostOne (cfg : Cfg) : Node → Prop
+  | .mk c ch dg sg =>
+    (cfg.revIter = false → ∀ a, (dg.inl a).length ≤ 1) ∧
+    (cfg.firing = false → ∀ o, (sg.outl o).length ≤ 1) ∧
+    (cfg.keepCache = false → ch ≠ [] → c.cached = none) ∧
+    (cfg.revalidate = true → c.refused = []) ∧ AtMostOneL cfg ch
+def AtMostOneL (cfg : Cfg) : List Node → Prop
+  | [] => True
+  | n :: ns => AtMostOne cfg n ∧ AtMostOneL cfg ns
+end
+
+mutual
+theorem atMostOne_of_repaired (cfg : Cfg) (h1 : cfg.revIter = true) (h2 : cfg.firing = true)
+    (h3 : cfg.keepCache = true) (h4 : cfg.revalidate = false) : ∀ n : Node, AtMostOne cfg n
+  | .mk _ ch _ _ => by
+    simp only [AtMostOne]
+    exact ⟨fun h => by simp [h1] at h, fun h => by simp [h2] at h, fun h => by simp [h3] at h,
+      fun h => by simp [h4] at h, atMostOneL_of_repaired cfg h1 h2 h3 h4 ch⟩
+theorem atMostOneL_of_repaired (cfg : Cfg) (h1 : cfg.revIter = true) (h2 : cfg.firing = true)
+    (h3 : cfg.keepCache = true) (h4 : cfg.revalidate = false) : ∀ ns : List Node, AtMostOneL cfg ns
+  | [] => by simp [AtMostOneL]
+  | n :: ns => by
+    simp only [AtMostOneL]
+    exact ⟨atMostOne_of_repaired cfg h1 h2 h3 h4 n, atMostOneL_of_repaired cfg h1 h2 h3 h4 ns⟩
+end
+
+mutual
 /-- no lookup fails when a well-formed graph is unpickled, and re-forging settled links through
 the setter is accepted and changes nothing -/
 theorem load_save_node (cfg : Cfg) :
-    ∀ (n : Node), WF n → (cfg.anyPush = true → Settled n) →
+    ∀ (n : Node), WF n → (cfg.anyPush = true → Settled n) → AtMostOne cfg n →
       ∀ pp, load cfg (save pp n) = .ok (img cfg (n.core.forState pp).detached n)
-  | .mk c ch dg sg, h, hset, pp => by
+  | .mk c ch dg sg, h, hset, hone, pp => by
     simp only [WF] at h
     obtain ⟨_, _, _, _, _, hd, hs, hst, hlk, hch⟩ := h
+    simp only [AtMostOne] at hone
+    obtain ⟨_, _, _, o4, och⟩ := hone
     have hsetL : cfg.anyPush = true → SettledL ch := fun hp => by
       have := hset hp; simp only [Settled] at this; exact this.2
-    have ih := load_save_list cfg ch hch hsetL (lexPath (c.forState pp).detached c.label)
+    have ih := load_save_list cfg ch hch hsetL och (lexPath (c.forState pp).detached c.label)
     obtain ⟨e1, e2, e3, e4, e5⟩ := doms_imgL cfg ch
     simp only [save, load, ih]
     rw [setstate_ok cfg]
@@ -574,6 +614,7 @@ theorem load_save_node (cfg : Cfg) :
       intro hn
       rw [hs.support a hn] at hoa
       cases hoa
+    · intro hv; simpa [Core.forState] using o4 hv
     · intro hk
       have hk' : c.kind.hasLinks = true := by simpa [Core.forState] using hk
       simp only [hk', if_true] at hlk
@@ -593,48 +634,20 @@ theorem load_save_node (cfg : Cfg) :
         have hv' : outValOf ch p.1 = some v := by simpa [outValOf, outVals_imgL] using hv
         simpa [Core.forState] using hS2 p (by simpa [Core.forState] using hp') v hv'
 theorem load_save_list (cfg : Cfg) :
-    ∀ (ns : List Node), WFL ns → (cfg.anyPush = true → SettledL ns) →
+    ∀ (ns : List Node), WFL ns → (cfg.anyPush = true → SettledL ns) → AtMostOneL cfg ns →
       ∀ p, loadL cfg (saveL p ns) = .ok (imgLd cfg (some p) ns)
-  | [], _, _, _ => by simp [saveL, loadL, imgLd]
-  | n :: ns, h, hset, p => by
+  | [], _, _, _, _ => by simp [saveL, loadL, imgLd]
+  | n :: ns, h, hset, hone, p => by
     simp only [WFL] at h
     obtain ⟨_, hn, hns⟩ := h
-    have i1 := load_save_node cfg n hn (fun hp => by have := hset hp; simp only [SettledL] at this; exact this.1) (some p)
-    have i2 := load_save_list cfg ns hns (fun hp => by have := hset hp; simp only [SettledL] at this; exact this.2) p
+    simp only [AtMostOneL] at hone
+    have i1 := load_save_node cfg n hn (fun hp => by have := hset hp; simp only [SettledL] at this; exact this.1) hone.1 (some p)
+    have i2 := load_save_list cfg ns hns (fun hp => by have := hset hp; simp only [SettledL] at this; exact this.2) hone.2 p
     simp only [saveL, loadL, i1, i2]
     simp [imgLd, Core.forState]
 end
 
 /-! ### what the returned graph shows -/
-
-mutual
-/-- the hypothesis under which the PINNED restore is faithful: where the reconnection order is not
-repaired, no data input holds more than one connection and no signal output fires more than one;
-where the cache is not kept, no composite (with children) holds one -/
-def AtMostOne (cfg : Cfg) : Node → Prop
-  | .mk c ch dg sg =>
-    (cfg.revIter = false → ∀ a, (dg.inl a).length ≤ 1) ∧
-    (cfg.firing = false → ∀ o, (sg.outl o).length ≤ 1) ∧
-    (cfg.keepCache = false → ch ≠ [] → c.cached = none) ∧ AtMostOneL cfg ch
-def AtMostOneL (cfg : Cfg) : List Node → Prop
-  | [] => True
-  | n :: ns => AtMostOne cfg n ∧ AtMostOneL cfg ns
-end
-
-mutual
-theorem atMostOne_of_repaired (cfg : Cfg) (h1 : cfg.revIter = true) (h2 : cfg.firing = true)
-    (h3 : cfg.keepCache = true) : ∀ n : Node, AtMostOne cfg n
-  | .mk _ ch _ _ => by
-    simp only [AtMostOne]
-    exact ⟨fun h => by simp [h1] at h, fun h => by simp [h2] at h, fun h => by simp [h3] at h,
-      atMostOneL_of_repaired cfg h1 h2 h3 ch⟩
-theorem atMostOneL_of_repaired (cfg : Cfg) (h1 : cfg.revIter = true) (h2 : cfg.firing = true)
-    (h3 : cfg.keepCache = true) : ∀ ns : List Node, AtMostOneL cfg ns
-  | [] => by simp [AtMostOneL]
-  | n :: ns => by
-    simp only [AtMostOneL]
-    exact ⟨atMostOne_of_repaired cfg h1 h2 h3 n, atMostOneL_of_repaired cfg h1 h2 h3 ns⟩
-end
 
 theorem table_congr (dom : List Addr) (f g : Addr → List Addr) (h : ∀ a ∈ dom, f a = g a) :
     table dom f = table dom g := by
@@ -745,7 +758,7 @@ theorem obs_img (cfg : Cfg) :
     simp only [WF] at h
     obtain ⟨_, hi, _, hsi, hso, hd, hs, _, _, hch⟩ := h
     simp only [AtMostOne] at hone
-    obtain ⟨o1, o2, o3, och⟩ := hone
+    obtain ⟨o1, o2, o3, o4, och⟩ := hone
     obtain ⟨_, e2, _, _, e5⟩ := doms_imgL cfg ch
     have ih := obsL_img cfg ch hch och
     have t1 := table_congr _ _ _ (restore_data_faithful cfg _ _ dg hi hd o1)
@@ -791,11 +804,11 @@ theorem fileLoad_save (cfg : Cfg) (n : Node) (hwf : WF n) (hset : cfg.anyPush = 
       ∀ p, obs p n' = obs p (n.withDetached (n.core.forState pp).detached) := by
   cases n with
   | mk c ch dg sg =>
-  have hl := load_save_node cfg (.mk c ch dg sg) hwf hset pp
+  have hl := load_save_node cfg (.mk c ch dg sg) hwf hset hone pp
   simp only [WF] at hwf
   obtain ⟨_, hi, ho, hsi, hso, hd, hs, hst, hlk, hch⟩ := hwf
   simp only [AtMostOne] at hone
-  obtain ⟨o1, o2, o3, och⟩ := hone
+  obtain ⟨o1, o2, o3, o4, och⟩ := hone
   obtain ⟨e1, e2, e3, e4, e5⟩ := doms_imgL cfg ch
   -- what the first cycle left on the top composite
   have hD := restore_data_faithful cfg _ _ dg hi hd o1
@@ -848,6 +861,7 @@ theorem fileLoad_save (cfg : Cfg) (n : Node) (hwf : WF n) (hset : cfg.anyPush = 
     intro hn
     rw [hs.support a hn] at hoa
     cases hoa
+  · intro hv; simpa [Core.forState] using o4 hv
   · intro hk
     have hk' : c.kind.hasLinks = true := by simpa [Core.forState] using hk
     simp only [hk', if_true] at hlk
@@ -1025,15 +1039,27 @@ theorem loadInPlace_keeps (cfg : Cfg) (c : Core) (ch : List Node) (dg sg : CG) (
     (hnd : (childLabels ch).Nodup) (hf : ch.find? (fun x => decide (x.core.label = l)) = some child)
     (hwf : WF child) (hdet : child.core.detached = none) (hone : AtMostOne cfg child)
     (hset : cfg.anyPush = true → Settled child) (pp : Option Path) :
-    ∃ g', loadInPlace cfg true pp (.mk c ch dg sg) l = .ok g' ∧ ∀ p, obs p g' = obs p (.mk c ch dg sg) := by
+    ∃ g', loadInPlace cfg 2 pp (.mk c ch dg sg) l = .ok g' ∧ ∀ p, obs p g' = obs p (.mk c ch dg sg) := by
   obtain ⟨n', h1, h2⟩ := fileLoad_save cfg child hwf hset hone (some (lexPath (c.forState pp).detached c.label))
   have hobs : ∀ p, obs p n'.adopt = obs p child := by
     intro p
     rw [obs_adopt, h2 p, ← obs_withDetached_none, withDetached_none_self child hdet]
   have hu := unique_label ch hnd l child hf
   obtain ⟨_, e2, _, _, e5, e6⟩ := replace_same l n'.adopt ch (fun x hx hl p => by rw [hu x hx hl]; exact hobs p)
-  refine ⟨.mk c (replaceChild ch l n'.adopt) dg sg, by simp only [loadInPlace, hf, h1, if_true], fun p => ?_⟩
+  refine ⟨.mk c (replaceChild ch l n'.adopt) dg sg, by simp [loadInPlace, hf, h1], fun p => ?_⟩
   simp only [obs, e2, e5, e6]
+
+/-- a fresh, parentless node loading a root's file: owning nothing and owned by nobody, it shows what
+the saved root showed (whichever way `Node.load` treats the stored detached path) -/
+theorem fileLoadAt_save (cfg : Cfg) (n : Node) (hwf : WF n) (hset : cfg.anyPush = true → Settled n)
+    (hone : AtMostOne cfg n) (hdet : n.core.detached = none) :
+    ∃ n', fileLoadAt cfg n.core.cls (some none) (save none n) = .ok n' ∧ ∀ p, obs p n' = obs p n := by
+  obtain ⟨m, h1, h2⟩ := fileLoad_save cfg n hwf hset hone none
+  cases m with
+  | mk c ch dg sg =>
+  refine ⟨.mk { c with detached := none } ch dg sg, by simp [fileLoadAt, h1], fun p => ?_⟩
+  have e : (Node.mk { c with detached := none } ch dg sg) = (Node.mk c ch dg sg).adopt := rfl
+  rw [e, obs_adopt, h2 p, ← obs_withDetached_none, withDetached_none_self n hdet]
 
 /-! ### table-given graphs -/
 
